@@ -54,7 +54,7 @@ func (r *chainRun) doAdversarial(st *CStep, n *Node, v *nodeView, failed *bool, 
 		err = n.Chain.SubmitTx(n.BaseCtx(), CloneTx(tx))
 		r.logf("submit %s to %s: %v", hx(tx.Txid), n.Name, err != nil)
 		*failed = err != nil
-		if r.cfg.Admit {
+		if r.cfg.Admit && st.FW == 0 && st.FR == 0 && !st.Full { // a step with an armed storage fault may refuse for that reason
 			if err == nil && exp != "" {
 				return r.viol("admit-not-current", "conflicting tx %s admitted by %s although %s", hx(tx.Txid), n.Name, exp)
 			}
